@@ -514,7 +514,7 @@ func (c *Ctx) leafPedigree(u *FuncUnit, fs *FactSet, arg ast.Expr) string {
 			return "variable bound to a result of minimum/maximum"
 		}
 		// the unsafe.Pointer parameter of restoreKey: every call site passes a leaf pointer
-		if u.Decl != nil && u.Lit == nil && strings.HasSuffix(u.Name, ".restoreKey") {
+		if u.Decl != nil && u.Lit == nil && c.m.isRestoreUnit(u) {
 			for _, f := range u.Decl.Type.Params.List {
 				for _, nm := range f.Names {
 					if info.Defs[nm] == v {
